@@ -11,9 +11,11 @@ from props import c33
 ID = "C32"
 GEN = ["hashutil"]
 RULE = ("cases: (server set with seeds / connection state / certificates, preferred list, grid-manager keys, clock, storage index, "
-        "for_upload), each evaluated on two brokers that learned the servers in different orders; plus the immutable uploader's "
-        "server selection and Publish.update_goal on the same brokers; non-trivial = at least two candidate servers (the sort "
-        "decides) ; distinct = distinct (server ids, seeds, preferred, permitted, storage index)")
+        "for_upload), each evaluated on two brokers that learned the servers in different orders; the immutable uploader's server "
+        "selection and Publish.update_goal on such brokers; and long-lived brokers (same NativeStorageServer objects) queried again "
+        "while the clock walks forward across every certificate expiry (one microsecond before / at / after); non-trivial = at "
+        "least two candidate servers (the sort decides); distinct = distinct (server ids, seeds, preferred, permitted, storage "
+        "index, instant)")
 META = {
     "title": "Servers are ordered consistently and upload permission is enforced",
     "level_text": ("Theorems in Coq over a model of StorageFarmBroker.get_servers_for_psi (stable sort by (unpreferred, SHA-1(psi ++ "
@@ -41,7 +43,7 @@ def rbytes(r, n):
     return bytes(r.getrandbits(8) for _ in range(n))
 
 
-def gen_world(r, nmax=12, gm=None, allow_raise=False):
+def gen_world(r, nmax=12, gm=None, allow_raise=False, horizon=None):
     """A set of servers + client configuration, as pure data."""
     from allmydata.util import base32
     n = r.choice([0, 1, 2, 3, 3, 4, 5, 6, 8, 10, nmax])
@@ -66,13 +68,13 @@ def gen_world(r, nmax=12, gm=None, allow_raise=False):
             g = r.choice(keys) if keys else r.randrange(c33.NGM)
             exp = now + timedelta(seconds=r.randrange(1, 10 ** 6))
             pk = pub
-            ok = True
+            ok = True                      # everything but the expiry
+            if horizon is not None:
+                exp = now + timedelta(seconds=r.randrange(1, horizon), microseconds=r.randrange(10 ** 6))
             if kind == "expired":
                 exp = now - timedelta(seconds=r.randrange(1, 10 ** 6))
-                ok = False
             elif kind == "at-expiry":
                 exp = now + r.choice([timedelta(0), US, -US])
-                ok = exp > now
             elif kind == "other-server":
                 pk = b"pub-v0-" + base32.b2a(rbytes(r, 32))
                 ok = False
@@ -83,7 +85,9 @@ def gen_world(r, nmax=12, gm=None, allow_raise=False):
                     ok = False
             data = c33.cert_bytes(pk, exp.isoformat())
             if kind == "signed-garbage":
-                data = r.choice([b"{", b"[1]", b'{"expires": 5, "public_key": "x"}'])
+                # valid JSON that validate() cannot read: upload_permitted() raises when called
+                # (bytes that are not JSON make create_grid_manager_verifier raise while the server object is built: C33)
+                data = r.choice([b"[1]", b'{"expires": 5, "public_key": "x"}', b'{"public_key": "x"}'])
                 ok = False
             sig = w.sign(g, data)
             if kind == "tampered-sig":
@@ -91,7 +95,8 @@ def gen_world(r, nmax=12, gm=None, allow_raise=False):
                 b[r.randrange(64)] ^= 1 << r.randrange(8)
                 sig = bytes(b)
                 ok = False
-            certs.append(dict(kind=kind, data=data, sig=sig, ok=ok and g in keys, garbage=(kind == "signed-garbage" and g in keys)))
+            certs.append(dict(kind=kind, data=data, sig=sig, exp=exp, static_ok=ok and g in keys, ok=ok and g in keys and exp > now,
+                              garbage=(kind == "signed-garbage" and g in keys)))
         servers.append(dict(id=sid, seed=seed, connected=r.random() < 0.85, certs=certs))
     ids = [s["id"] for s in servers]
     preferred = tuple(x for x in ids if r.random() < 0.3)
@@ -101,13 +106,34 @@ def gen_world(r, nmax=12, gm=None, allow_raise=False):
     return dict(world=w, keys=keys, now=now, servers=servers, preferred=preferred, psi=psi)
 
 
+def set_time(W, t):
+    """Move the (patched) clock: a certificate is valid at t iff it is valid apart from time and t < expires."""
+    W["now"] = t
+    for s in W["servers"]:
+        for c in s["certs"]:
+            c["ok"] = c["static_ok"] and c["exp"] > t
+
+
+def rule_outcome(W, s):
+    """The property's rule, from how the certificates were made: 'permit' iff no keys are configured or the
+    server presents a valid unexpired certificate; 'raise' only for the excluded inputs (a certificate signed
+    by a configured grid manager whose content cannot be read, met before any valid one)."""
+    if not W["keys"]:
+        return "permit"
+    for c in s["certs"]:
+        if c["garbage"]:
+            return "raise"
+        if c["ok"]:
+            return "permit"
+    return "deny"
+
+
 def rule_permitted(W, s):
-    """The property's rule: permitted iff no keys configured or a valid unexpired certificate by construction."""
-    return (not W["keys"]) or any(c["ok"] for c in s["certs"])
+    return rule_outcome(W, s) == "permit"
 
 
 def rule_raises(W, s):
-    return bool(W["keys"]) and any(c["garbage"] for c in s["certs"])
+    return rule_outcome(W, s) == "raise"
 
 
 def build_broker(W, order, cfg, preferred=None, scc=None):
@@ -295,6 +321,7 @@ def run(ctx):
     configured_preference(ctx)
     uploader(ctx, cfg, terms, info)
     publisher(ctx, cfg, terms, info)
+    aging(ctx, cfg, terms, info)
     # one evaluation for all three correspondences (loading the SHA-1 development dominates small batches)
     bad = ctx.coq_check(IMPORTS, terms, tag="c32", shard=max(20, (len(terms) + 7) // 8))
     for ix in bad:
@@ -363,128 +390,204 @@ def configured_preference(ctx):
 
 def uploader(ctx, cfg, terms, info):
     """immutable/upload.py Tahoe2ServerSelector.get_shareholders: which servers does an upload talk to?"""
-    from twisted.internet.task import Clock
-    from allmydata.client import SecretHolder
-    from allmydata.immutable import upload
-    for i in range(ctx.n(40, 400)):
+    for i in range(ctx.n(30, 400)):
         r = ctx.rng("upload", i)
         W = gen_world(r, gm=True if r.random() < 0.8 else False)
         W["psi"] = rbytes(r, 16)
         total = r.choice([1, 2, 3, 4, 10])
         needed = r.randrange(1, total + 1)
-        idx = dict((s["id"], k) for k, s in enumerate(W["servers"]))
         with clock(W):
             sb = build_broker(W, list(range(len(W["servers"]))), cfg)
-            seeds = dict((sid, srv.get_permutation_seed()) for sid, srv in sb.servers.items())
-            enum = [srv.get_serverid() for srv in sb.get_connected_servers()]
-            FakeRref.log = calls = []
-            outcome = []
-            try:
-                sel = upload.Tahoe2ServerSelector(b"verif", None, upload.UploadStatus(), reactor=Clock())
-                d = sel.get_shareholders(sb, SecretHolder(b"lease", b"conv"), W["psi"], 1000, 100, 1, total, needed, 1, 500)
-                d.addCallbacks(lambda res: outcome.append(("ok", res)), lambda f: outcome.append(("err", f.type.__name__)))
-            except Exception as e:
-                outcome.append(("err", type(e).__name__))
-            finally:
-                FakeRref.log = None
-        contacted = []
-        for sid, meth in calls:
-            if sid not in contacted:
-                contacted.append(sid)
-        if not outcome:
-            ctx.mismatch("harness-upload-did-not-complete", "get_shareholders did not complete synchronously", case=describe(W), correspondence="uploader-candidates-vs-model")
-            continue
-        want, ties = expected_order(W, True, seeds)
-        cinfo = dict(describe(W), stream="upload", index=i, total_shares=total)
-        ctx.case(("upload", tuple(sorted(seeds.items())), W["psi"], total, tuple(contacted)) if len(contacted) >= 2 else None, kind="uploader")
-        unperm = [x for x in contacted if W["keys"] and not rule_permitted(W, W["servers"][idx[x]])]
-        if unperm:
-            ctx.oracle_fail("upload-contacts-unpermitted-server",
-                            "the immutable uploader sent %s to server %s, which holds no valid certificate from a configured grid manager"
-                            % ([m for s, m in calls if s == unperm[0]][0], unperm[0].decode()),
-                            case=cinfo, expected=[x.decode() for x in want], observed=[x.decode() for x in contacted])
-        elif not ties and contacted != want[:2 * total]:
-            ctx.oracle_fail("upload-candidates-not-first-2n-of-order", "the immutable uploader did not contact exactly the first 2*N servers of the permuted upload list, in order",
-                            case=cinfo, expected=[x.decode() for x in want[:2 * total]], observed=[x.decode() for x in contacted])
-        if (outcome[0] == ("err", "NoServersError")) != (not want):
-            ctx.oracle_fail("upload-no-servers-error-mismatch", "NoServersError raised=%s but %d permitted servers are connected" % (outcome[0] == ("err", "NoServersError"), len(want)),
-                            case=cinfo, expected=len(want), observed=repr(outcome[0][1]))
-        spk_ids = {}
-        srvs = [srv_term(W, W["servers"][idx[sid]], idx[sid], seeds[sid], spk_ids) for sid in enum]
-        obs = "ICNoServers" if outcome[0] == ("err", "NoServersError") else "(ICServers %s)" % T.lst([T.N(idx[x]) for x in contacted])
-        terms.append("cand_eqb (run_upload_candidates %s %s %s) %s" % (T.lst(srvs), T.bytes_(W["psi"]), T.nat(total), obs))
-        info.append(("upload", (i, cinfo, contacted, outcome[0][0] if outcome[0][0] == "ok" else outcome[0][1])))
+            upload_step(ctx, sb, W, total, needed, dict(describe(W), stream="upload", index=i, total_shares=total), terms, info, i)
+
+
+def upload_step(ctx, sb, W, total, needed, cinfo, terms, info, i, kind="uploader"):
+    """One upload's server selection on an existing broker, at the current (patched) time."""
+    from twisted.internet.task import Clock
+    from allmydata.client import SecretHolder
+    from allmydata.immutable import upload
+    idx = dict((s["id"], k) for k, s in enumerate(W["servers"]))
+    seeds = dict((sid, srv.get_permutation_seed()) for sid, srv in sb.servers.items())
+    enum = [srv.get_serverid() for srv in sb.get_connected_servers()]
+    FakeRref.log = calls = []
+    outcome = []
+    try:
+        sel = upload.Tahoe2ServerSelector(b"verif", None, upload.UploadStatus(), reactor=Clock())
+        d = sel.get_shareholders(sb, SecretHolder(b"lease", b"conv"), W["psi"], 1000, 100, 1, total, needed, 1, 500)
+        d.addCallbacks(lambda res: outcome.append(("ok", res)), lambda f: outcome.append(("err", f.type.__name__)))
+    except Exception as e:
+        outcome.append(("err", type(e).__name__))
+    finally:
+        FakeRref.log = None
+    contacted = []
+    for sid, meth in calls:
+        if sid not in contacted:
+            contacted.append(sid)
+    if not outcome:
+        ctx.mismatch("harness-upload-did-not-complete", "get_shareholders did not complete synchronously", case=cinfo, correspondence="uploader-candidates-vs-model")
+        return
+    want, ties = expected_order(W, True, seeds)
+    ctx.case((kind, tuple(sorted(seeds.items())), W["psi"], total, W["now"], tuple(contacted)) if len(contacted) >= 2 else None, kind=kind)
+    unperm = [x for x in contacted if W["keys"] and not rule_permitted(W, W["servers"][idx[x]])]
+    if unperm:
+        ctx.oracle_fail("upload-contacts-unpermitted-server",
+                        "at %s the immutable uploader sent %s to server %s, which holds no certificate from a configured grid manager that is valid at that time"
+                        % (W["now"].isoformat(), [m for s, m in calls if s == unperm[0]][0], unperm[0].decode()),
+                        case=cinfo, expected=[x.decode() for x in want], observed=[x.decode() for x in contacted])
+    elif not ties and contacted != want[:2 * total]:
+        ctx.oracle_fail("upload-candidates-not-first-2n-of-order", "the immutable uploader did not contact exactly the first 2*N servers of the permuted upload list, in order",
+                        case=cinfo, expected=[x.decode() for x in want[:2 * total]], observed=[x.decode() for x in contacted])
+    if (outcome[0] == ("err", "NoServersError")) != (not want):
+        ctx.oracle_fail("upload-no-servers-error-mismatch", "NoServersError raised=%s but %d permitted servers are connected" % (outcome[0] == ("err", "NoServersError"), len(want)),
+                        case=cinfo, expected=len(want), observed=repr(outcome[0][1]))
+    spk_ids = {}
+    srvs = [srv_term(W, W["servers"][idx[sid]], idx[sid], seeds[sid], spk_ids) for sid in enum]
+    obs = "ICNoServers" if outcome[0] == ("err", "NoServersError") else "(ICServers %s)" % T.lst([T.N(idx[x]) for x in contacted])
+    terms.append("cand_eqb (run_upload_candidates %s %s %s) %s" % (T.lst(srvs), T.bytes_(W["psi"]), T.nat(total), obs))
+    info.append(("upload", (i, cinfo, contacted, outcome[0][0] if outcome[0][0] == "ok" else outcome[0][1])))
 
 
 def publisher(ctx, cfg, terms, info):
     """mutable/publish.py Publish.update_goal on a bare Publish object."""
-    from allmydata.mutable.publish import Publish
-    from allmydata.mutable.common import NotEnoughServersError
-    for i in range(ctx.n(60, 600)):
+    for i in range(ctx.n(40, 600)):
         r = ctx.rng("publish", i)
         W = gen_world(r, nmax=8, gm=True if r.random() < 0.8 else False)
         W["psi"] = rbytes(r, 16)
-        idx = dict((s["id"], k) for k, s in enumerate(W["servers"]))
         total = r.choice([1, 2, 3, 5, 10])
         with clock(W):
             sb = build_broker(W, list(range(len(W["servers"]))), cfg)
-            full = list(sb.get_servers_for_psi(W["psi"]))
-            allsrv = list(sb.servers.values())
-            goal = set()
-            for _ in range(r.choice([0, 0, 1, 2, 3, total])):
-                if allsrv:
-                    goal.add((r.choice(allsrv), r.randrange(total)))
-            bad = set(s for s in allsrv if r.random() < 0.2)
-            p = Publish.__new__(Publish)
-            p.goal = set(goal)
-            p.bad_servers = set(bad)
-            p.total_shares = total
-            p.full_serverlist = full
-            p._first_write_error = None
-            p._new_seqnum = 1
-            p.log = lambda *a, **k: None
-            try:
-                p.update_goal()
-                result = sorted((srv.get_serverid(), sh) for srv, sh in p.goal)
-            except NotEnoughServersError:
-                result = "not-enough"
-            except Exception as e:
-                result = "raise:" + type(e).__name__
-        cinfo = dict(describe(W), stream="publish", index=i, total_shares=total, bad=sorted(s.get_serverid().decode() for s in bad),
-                     goal=sorted((s.get_serverid().decode(), sh) for s, sh in goal), full=[s.get_serverid().decode() for s in full])
-        old = set((s.get_serverid(), sh) for s, sh in goal)
-        badids = set(s.get_serverid() for s in bad)
-        ctx.case(("publish", tuple(sorted(old)), tuple(sorted(badids)), total, tuple(result) if isinstance(result, list) else result)
-                 if isinstance(result, list) and len(result) > len(old) else None, kind="publisher")
-        if isinstance(result, list):
-            for sid, sh in result:
-                if (sid, sh) in old:
-                    continue
-                if W["keys"] and not rule_permitted(W, W["servers"][idx[sid]]):
-                    ctx.oracle_fail("publish-places-share-on-unpermitted-server",
-                                    "Publish.update_goal assigns share %d to %s, which holds no valid certificate from a configured grid manager" % (sh, sid.decode()),
-                                    case=cinfo, expected="a permitted server", observed=[(a.decode(), b) for a, b in result])
-                    break
-                if sid in badids:
-                    ctx.oracle_fail("publish-places-share-on-bad-server", "Publish.update_goal assigns share %d to bad server %s" % (sh, sid.decode()),
-                                    case=cinfo, expected="a non-bad server", observed=[(a.decode(), b) for a, b in result])
-                    break
-            missing = set(range(total)) - set(sh for _, sh in result)
-            if missing:
-                ctx.oracle_fail("publish-goal-misses-shares", "after update_goal shares %s have no server" % sorted(missing), case=cinfo,
-                                expected=list(range(total)), observed=[(a.decode(), b) for a, b in result])
-        spk_ids = {}
-        recs = {}
-        for s in W["servers"]:
-            recs[s["id"]] = srv_term(W, s, idx[s["id"]], b"", spk_ids, bad=s["id"] in badids)
-        fullt = T.lst([recs[s.get_serverid()] for s in full])
-        goalt = T.lst(["(%s, %s)" % (recs[sid], T.N(sh)) for sid, sh in sorted(old)])
-        if isinstance(result, list):
-            obs = "(IGGoal %s)" % T.lst(["(%s, %s)" % (T.N(idx[sid]), T.N(sh)) for sid, sh in result])
-        else:
-            obs = "IGNotEnough" if result == "not-enough" else "IGRaise"
-        terms.append("id_goal_eqb (run_update_goal %s %s %s) %s" % (fullt, goalt, T.nat(total), obs))
-        info.append(("publish", (i, cinfo, result)))
+            publish_step(ctx, sb, W, r, total, dict(describe(W), stream="publish", index=i, total_shares=total), terms, info, i)
+
+
+def publish_step(ctx, sb, W, r, total, cinfo, terms, info, i, kind="publisher"):
+    """One Publish.update_goal on an existing broker, at the current (patched) time."""
+    from allmydata.mutable.publish import Publish
+    from allmydata.mutable.common import NotEnoughServersError
+    idx = dict((s["id"], k) for k, s in enumerate(W["servers"]))
+    full = list(sb.get_servers_for_psi(W["psi"]))
+    allsrv = list(sb.servers.values())
+    goal = set()
+    for _ in range(r.choice([0, 0, 1, 2, 3, total])):
+        if allsrv:
+            goal.add((r.choice(allsrv), r.randrange(total)))
+    bad = set(s for s in allsrv if r.random() < 0.2)
+    p = Publish.__new__(Publish)
+    p.goal = set(goal)
+    p.bad_servers = set(bad)
+    p.total_shares = total
+    p.full_serverlist = full
+    p._first_write_error = None
+    p._new_seqnum = 1
+    p.log = lambda *a, **k: None
+    try:
+        p.update_goal()
+        result = sorted((srv.get_serverid(), sh) for srv, sh in p.goal)
+    except NotEnoughServersError:
+        result = "not-enough"
+    except Exception as e:
+        result = "raise:" + type(e).__name__
+    cinfo = dict(cinfo, bad=sorted(s.get_serverid().decode() for s in bad),
+                 goal=sorted((s.get_serverid().decode(), sh) for s, sh in goal), full=[s.get_serverid().decode() for s in full])
+    old = set((s.get_serverid(), sh) for s, sh in goal)
+    badids = set(s.get_serverid() for s in bad)
+    ctx.case((kind, tuple(sorted(old)), tuple(sorted(badids)), total, W["now"], tuple(result) if isinstance(result, list) else result)
+             if isinstance(result, list) and len(result) > len(old) else None, kind=kind)
+    if isinstance(result, list):
+        for sid, sh in result:
+            if (sid, sh) in old:
+                continue
+            if W["keys"] and not rule_permitted(W, W["servers"][idx[sid]]):
+                ctx.oracle_fail("publish-places-share-on-unpermitted-server",
+                                "at %s Publish.update_goal assigns share %d to %s, which holds no certificate from a configured grid manager that is valid at that time"
+                                % (W["now"].isoformat(), sh, sid.decode()),
+                                case=cinfo, expected="a permitted server", observed=[(a.decode(), b) for a, b in result])
+                break
+            if sid in badids:
+                ctx.oracle_fail("publish-places-share-on-bad-server", "Publish.update_goal assigns share %d to bad server %s" % (sh, sid.decode()),
+                                case=cinfo, expected="a non-bad server", observed=[(a.decode(), b) for a, b in result])
+                break
+        missing = set(range(total)) - set(sh for _, sh in result)
+        if missing:
+            ctx.oracle_fail("publish-goal-misses-shares", "after update_goal shares %s have no server" % sorted(missing), case=cinfo,
+                            expected=list(range(total)), observed=[(a.decode(), b) for a, b in result])
+    elif result == "not-enough":
+        able = [s for s in full if s.get_serverid() not in badids and rule_permitted(W, W["servers"][idx[s.get_serverid()]])]
+        homeless = set(range(total)) - set(sh for (sid, sh) in old if sid not in badids)
+        if able and homeless:
+            ctx.oracle_fail("publish-refuses-permitted-server", "at %s Publish.update_goal raised NotEnoughServersError although %s is connected, not bad and holds a valid certificate"
+                            % (W["now"].isoformat(), able[0].get_serverid().decode()), case=cinfo, expected="a goal", observed=result)
+    spk_ids = {}
+    recs = {}
+    for s in W["servers"]:
+        recs[s["id"]] = srv_term(W, s, idx[s["id"]], b"", spk_ids, bad=s["id"] in badids)
+    fullt = T.lst([recs[s.get_serverid()] for s in full])
+    goalt = T.lst(["(%s, %s)" % (recs[sid], T.N(sh)) for sid, sh in sorted(old)])
+    if isinstance(result, list):
+        obs = "(IGGoal %s)" % T.lst(["(%s, %s)" % (T.N(idx[sid]), T.N(sh)) for sid, sh in result])
+    else:
+        obs = "IGNotEnough" if result == "not-enough" else "IGRaise"
+    terms.append("id_goal_eqb (run_update_goal %s %s %s) %s" % (fullt, goalt, T.nat(total), obs))
+    info.append(("publish", (i, cinfo, result)))
+
+
+def aging(ctx, cfg, terms, info, only=None):
+    """A long-lived client: ONE StorageFarmBroker and its NativeStorageServer objects are kept while the clock walks
+    forward across every certificate expiry.  At each instant the upload list, every server's upload_permitted(), the
+    uploader's and the publisher's selections must reflect the certificates valid at THAT instant."""
+    for i in (range(ctx.n(14, 140)) if only is None else [only]):
+        r = ctx.rng("aging", i)
+        for _ in range(30):
+            W = gen_world(r, nmax=6, gm=True, horizon=r.choice([5, 100, 10 ** 5]))
+            if any(c["static_ok"] and c["exp"] > W["now"] for s in W["servers"] if s["connected"] for c in s["certs"]):
+                break
+        W["psi"] = rbytes(r, 16)
+        t0 = W["now"]
+        exps = sorted(set(c["exp"] for s in W["servers"] for c in s["certs"] if c["static_ok"] and c["exp"] > t0))
+        times = [t0]
+        for e in exps[:3]:
+            times += [e - US, e] if r.random() < 0.5 else [e, e + US]
+        times.append((exps[-1] if exps else t0) + timedelta(days=r.randrange(1, 1000)))
+        times = sorted(set(t for t in times if t >= t0))
+        idx = dict((s["id"], k) for k, s in enumerate(W["servers"]))
+        total = r.choice([1, 2, 3])
+        with clock(W):
+            sb = build_broker(W, list(range(len(W["servers"]))), cfg)
+            seeds = dict((sid, srv.get_permutation_seed()) for sid, srv in sb.servers.items())
+            for step, t in enumerate(times):
+                set_time(W, t)
+                cinfo = dict(describe(W), stream="aging", index=i, step=step, times=[x.isoformat() for x in times])
+                try:
+                    got = [srv.get_serverid() for srv in sb.get_servers_for_psi(W["psi"], for_upload=True)]
+                except Exception as e:
+                    got = "raise"
+                perm = dict((sid, srv.upload_permitted()) for sid, srv in sb.servers.items())
+                want, ties = expected_order(W, True, seeds)
+                ctx.case(("aging", tuple(sorted(seeds.items())), W["psi"], t, tuple(got)), kind="aging")
+                stale = [s["id"] for s in W["servers"] if perm[s["id"]] is not rule_permitted(W, s)]
+                if stale:
+                    sid = stale[0]
+                    ctx.oracle_fail("upload-permission-stale" if perm[sid] else "upload-permission-denied-despite-valid-certificate",
+                                    "the same server object %s asked again at %s (step %d of a clock walking across certificate expiries) answers upload_permitted()=%r; "
+                                    "the certificates valid at that instant say %r" % (sid.decode(), t.isoformat(), step, perm[sid], not perm[sid]),
+                                    case=cinfo, expected=not perm[sid], observed=perm[sid])
+                if got == "raise" or sorted(got) != sorted(want):
+                    ctx.oracle_fail("upload-list-not-the-servers-valid-now",
+                                    "at %s (step %d, same broker) get_servers_for_psi(for_upload=True) does not list exactly the connected servers holding a certificate valid at that instant"
+                                    % (t.isoformat(), step), case=cinfo, expected=[x.decode() for x in want], observed=got if got == "raise" else [x.decode() for x in got])
+                elif not ties and got != want:
+                    ctx.oracle_fail("server-order-not-by-permuted-hash", "upload list order differs from (preferred first, then SHA-1(psi+seed))",
+                                    case=cinfo, expected=[x.decode() for x in want], observed=[x.decode() for x in got])
+                enum = [srv.get_serverid() for srv in sb.get_connected_servers()]
+                spk_ids = {}
+                srvs = [srv_term(W, W["servers"][idx[sid]], idx[sid], seeds[sid], spk_ids) for sid in enum]
+                obs = "None" if got == "raise" else "(Some %s)" % T.lst([T.N(idx[x]) for x in got])
+                terms.append("opt_ids_eqb (run_get_servers %s %s true) %s" % (T.lst(srvs), T.bytes_(W["psi"]), obs))
+                info.append(("order", ("aging", i, cinfo, [got])))
+                if step % 2 == 1 or step == len(times) - 1:
+                    upload_step(ctx, sb, W, total, 1, dict(cinfo, total_shares=total), terms, info, i, kind="aging-uploader")
+                    publish_step(ctx, sb, W, r, total, dict(cinfo, total_shares=total), terms, info, i, kind="aging-publisher")
+        if i < 1:
+            ctx.sample({"aging": describe(W), "times": [x.isoformat() for x in times]})
 
 
 def replay(ctx, rec):
@@ -494,4 +597,8 @@ def replay(ctx, rec):
         terms, info = [], []
         W = order_case(ctx, i, node_config(), terms, info, stream=stream)
         return {"case": describe(W), "model_vs_impl_disagreements": ctx.coq_check(IMPORTS, terms, tag="c32r")}
+    if stream == "aging":
+        terms, info = [], []
+        aging(ctx, node_config(), terms, info, only=i)
+        return {"steps": c.get("times"), "model_vs_impl_disagreements": ctx.coq_check(IMPORTS, terms, tag="c32r")}
     return {"note": "stream %r is replayed by running the property check with the recorded seed" % stream}
